@@ -34,6 +34,8 @@ struct Case
     int start_skew = 0;  // per-thread start delay in yields
     int newlines = 0;    // 1: record bodies contain embedded line breaks
     int stall_ms = 0;    // > 0: every 40th write stalls that long inside the critical section
+    int nest = 0;        // 1: every 5th statement has an operand that itself logs a complete record
+    int first = 0;       // 1: the threads are released by a busy-wait barrier (first-ever use of the sink)
     template <class A>
     void io(A& a)
     {
@@ -46,6 +48,8 @@ struct Case
         a("start_skew", start_skew);
         a("newlines", newlines);
         a("stall_ms", stall_ms);
+        a("nest", nest);
+        a("first", first);
     }
 };
 
@@ -60,14 +64,25 @@ std::string describe(const Case& c)
     o << (c.sink ? "StdErrThreaded" : "stdout_mt") << ": " << c.threads << " threads x " << c.per_thread
       << " records, lengths 1.." << c.max_len << " (seed " << c.len_seed << "), " << c.yields
       << " yields inside the critical section, start skew " << c.start_skew
-      << (c.newlines ? ", multi-line records" : "") << (c.stall_ms ? ", stalls of " + std::to_string(c.stall_ms) + " ms" : "");
+      << (c.newlines ? ", multi-line records" : "") << (c.stall_ms ? ", stalls of " + std::to_string(c.stall_ms) + " ms" : "")
+      << (c.nest ? ", every 5th statement has an operand that logs" : "") << (c.first ? ", busy-wait start barrier" : "");
     return o.str();
 }
 
-Case generate(vf::Src& src, const std::string&)
+Case generate(vf::Src& src, const std::string& mode)
 {
     Case c;
     c.sink = src.irange(0, 1);
+    if (mode == "first")
+    {
+        // the very first records of a process: all threads arrive at the sink at the same moment
+        c.threads = 8;
+        c.per_thread = 3;
+        c.len_seed = src.irange(1, 1000000);
+        c.max_len = 100;
+        c.first = 1;
+        return c;
+    }
     c.threads = src.irange(2, 8);
     c.per_thread = src.irange(20, 300);
     c.len_seed = src.irange(1, 1000000);
@@ -75,6 +90,7 @@ Case generate(vf::Src& src, const std::string&)
     c.yields = src.irange(0, 20);
     c.start_skew = src.irange(0, 50);
     c.newlines = src.coin(35) ? 1 : 0;
+    c.nest = src.coin(30) ? 1 : 0;
     // a stream that stalls now and then (a blocked pipe, a slow terminal): waiters queue up for long
     if (src.coin(12))
     {
@@ -198,15 +214,38 @@ std::string check(const Case& c0, vf::Ctx& ctx)
     std::ostream& target = c.sink ? std::cerr : std::cout;
     std::streambuf* old = target.rdbuf(&buf);
     attempting = 0;
-    std::atomic<int> go{ 0 };
+    std::atomic<int> go{ 0 }, ready{ 0 }, inner_total{ 0 };
     std::vector<std::thread> th;
     for (int t = 0; t < c.threads; ++t)
         th.emplace_back([&, t] {
-            while (!go.load())
-                sched_yield();
+            ready.fetch_add(1);
+            if (c.first)
+                while (!go.load(std::memory_order_acquire))
+                {
+                }
+            else
+                while (!go.load())
+                    sched_yield();
             for (int i = 0; i < (c.start_skew * t) % 97; ++i)
                 sched_yield();
             char fill = static_cast<char>('a' + t);
+            int inner_seq = 0;
+            // an operand that reports something itself: a complete record of the "virtual thread"
+            // t + 8, issued while the outer statement is still collecting its items
+            auto inner_record = [&]() -> std::string {
+                int vt = t + 8;
+                int len = length_of(c, vt, inner_seq);
+                char ifill = static_cast<char>('A' + t);
+                std::string body(static_cast<std::size_t>(len), ifill);
+                for (int i = 0; i < len; ++i)
+                    body[static_cast<std::size_t>(i)] = body_byte(c, ifill, i);
+                if (c.sink)
+                    LogErr::warn() << "[t" << vt << "#" << inner_seq << "|" << len << "|" << body << "]";
+                else
+                    LogOut::warn() << "[t" << vt << "#" << inner_seq << "|" << len << "|" << body << "]";
+                ++inner_seq;
+                return "";
+            };
             for (int s = 0; s < c.per_thread; ++s)
             {
                 int len = length_of(c, t, s);
@@ -214,19 +253,41 @@ std::string check(const Case& c0, vf::Ctx& ctx)
                 for (int i = 0; i < len; ++i)
                     body[static_cast<std::size_t>(i)] = body_byte(c, fill, i);
                 attempting.fetch_add(1, std::memory_order_acq_rel);
-                if (c.sink)
+                if (c.nest && s % 5 == 3)
+                {
+                    // once as a lazily evaluated callable, once as a plain function call operand
+                    if (c.sink)
+                    {
+                        if (s % 2)
+                            LogErr::info() << "[t" << t << "#" << s << "|" << inner_record << len << "|" << body << "]";
+                        else
+                            LogErr::info() << "[t" << t << "#" << s << "|" << len << inner_record() << "|" << body << "]";
+                    }
+                    else
+                    {
+                        if (s % 2)
+                            LogOut::info() << "[t" << t << "#" << s << "|" << inner_record << len << "|" << body << "]";
+                        else
+                            LogOut::info() << "[t" << t << "#" << s << "|" << len << inner_record() << "|" << body << "]";
+                    }
+                }
+                else if (c.sink)
                     LogErr::info() << "[t" << t << "#" << s << "|" << len << "|" << body << "]";
                 else
                     LogOut::info() << "[t" << t << "#" << s << "|" << len << "|" << body << "]";
                 attempting.fetch_sub(1, std::memory_order_acq_rel);
             }
+            inner_total.fetch_add(inner_seq);
         });
-    go = 1;
+    if (c.first)
+        while (ready.load() < c.threads)
+            sched_yield();
+    go.store(1, std::memory_order_release);
     for (auto& t : th)
         t.join();
     target.rdbuf(old);
 
-    const long total = static_cast<long>(c.threads) * c.per_thread;
+    const long total = static_cast<long>(c.threads) * c.per_thread + inner_total.load();
     long contended = buf.contended.load();
     ctx.add("records", static_cast<std::uint64_t>(total));
     ctx.add("records:contended", static_cast<std::uint64_t>(contended));
@@ -235,6 +296,10 @@ std::string check(const Case& c0, vf::Ctx& ctx)
         ctx.tag("records:multi-line");
     if (c.stall_ms)
         ctx.tag("stream:stalls");
+    if (c.nest)
+        ctx.tag("statements:operand-logs-itself");
+    if (c.first)
+        ctx.tag("start:busy-wait-barrier");
     if (contended > 0)
         ctx.mark_nontrivial();
 
@@ -244,18 +309,18 @@ std::string check(const Case& c0, vf::Ctx& ctx)
                "time (" + describe(c) + ")";
     // parse the captured bytes as a sequence of whole records
     const std::string& d = buf.data;
-    std::vector<int> next(static_cast<std::size_t>(c.threads), 0);
+    std::vector<int> next(16, 0);
     std::size_t pos = 0;
     long seen = 0;
     while (pos < d.size())
     {
         int t = -1, s = -1, len = -1, consumed = 0;
         if (std::sscanf(d.c_str() + pos, "[t%d#%d|%d|%n", &t, &s, &len, &consumed) != 3 || t < 0 ||
-            t >= c.threads || len < 1 || len > c.max_len)
+            (t >= c.threads && t < 8) || t >= 8 + c.threads || len < 1 || len > c.max_len)
             return "output does not parse as whole records at byte " + std::to_string(pos) + ": " +
                    vf::vis(d.substr(pos, 60)) + " (" + describe(c) + ")";
         pos += static_cast<std::size_t>(consumed);
-        char fill = static_cast<char>('a' + t);
+        char fill = t >= 8 ? static_cast<char>('A' + t - 8) : static_cast<char>('a' + t);
         if (pos + static_cast<std::size_t>(len) + 2 > d.size())
             return "output ends inside a record (" + describe(c) + ")";
         for (int i = 0; i < len; ++i)
